@@ -2,7 +2,7 @@
 import hashlib
 import random
 
-from vmon import env, plainrun
+from vmon import env, plainrun, preempt
 
 ID = "C04"
 LEVEL = "exploration"
@@ -41,10 +41,25 @@ def gen_cases(tier, seed):
             d["faults"] = {"p": r.choice([0.1, 0.4]), "kinds": ["exc", "value"], "flaky": True, "max_flaky": r.choice([1, 2, 4, 6])}
             d["max_errors"] = r.choice([0, None])
         out.append(d)
+    out.extend(preempt.gen_descs(tier, seed, ID))  # deterministic single-preemption enumeration (vmon/preempt.py)
     return out
 
 
+def preempt_oracle(R, ir):
+    H = R.H
+    over = {nid: c for nid, c in H.attempts.items() if c > 1}
+    if over:
+        return f"call(s) executed more than once: {over}"
+    if R.exc is None:
+        needed = ir.needed() & set(ir.harness_calls())
+        if set(H.attempts) != needed:
+            return f"successful run executed {sorted(H.attempts)} but the output needs {sorted(needed)}"
+    return None
+
+
 def run_case(desc):
+    if desc.get("mode") == "preempt1":
+        return preempt.enumerate_case(desc, preempt_oracle)
     R = plainrun.execute(desc, record_args=False)
     ir, H = R.ir, R.H
     calls = set(ir.harness_calls())
@@ -101,6 +116,8 @@ def finalize(agg, tier):
         reasons.append("fewer than 100 successful runs")
     if c["unneeded_calls_checked"] < 100:
         reasons.append("plans had fewer than 100 unneeded calls in total")
+    if c["preempt_holds_others_completed"] < 100:
+        reasons.append("single-preemption enumeration: fewer than 100 holds during which the other predecessors completed their bookkeeping")
     if c["runs_failed"] < 20:
         reasons.append("fewer than 20 failing runs")
     return reasons
